@@ -140,7 +140,7 @@ pub fn gen_and_run<G: AffineRepr>(curve: &str, ci: u64, modulus: &str, seed: u64
         let bseed: u64 = rng.gen();
         let consumed = std::cell::Cell::new(u64::MAX);
         let usable: Vec<_> = data.iter().filter(|(_, o)| o.vproof.is_some()).collect();
-        let verdict = catch_unwind(AssertUnwindSafe(|| {
+        let run_batch_mode = |mode: u8| catch_unwind(AssertUnwindSafe(|| {
             let mut transcripts: Vec<Transcript> = usable.iter().map(|(c, _)| Transcript::new(c.vlabel)).collect();
             let mut insts = vec![];
             for ((c, o), t) in usable.iter().zip(transcripts.iter_mut()) {
@@ -163,10 +163,23 @@ pub fn gen_and_run<G: AffineRepr>(curve: &str, ci: u64, modulus: &str, seed: u64
                 insts.push((v, o.vproof.as_ref().unwrap()));
             }
             let mut brng = CountingRng { inner: ChaChaRng::seed_from_u64(bseed), bytes: 0 };
-            let res = batch_verify(&mut brng, insts, &pc, &bp);
-            consumed.set(brng.bytes);
+            // mode 0: a Vec (exact size_hint); mode 1: an iterator whose size_hint lower bound is 0;
+            // mode 2: an exact head chained with a lazily sized tail.  The verdict must not depend on the iterator type.
+            let res = match mode {
+                0 => batch_verify(&mut brng, insts, &pc, &bp),
+                1 => batch_verify(&mut brng, insts.into_iter().filter(|_| true), &pc, &bp),
+                _ => {
+                    let mut head = insts;
+                    let tail = head.split_off(head.len() / 2);
+                    batch_verify(&mut brng, head.into_iter().chain(tail.into_iter().filter(|_| true)), &pc, &bp)
+                }
+            };
+            if mode == 0 { consumed.set(brng.bytes); }
             res
         }));
+        let verdict = run_batch_mode(0);
+        let code_of = |v: &std::thread::Result<Result<(), ark_bulletproofs::r1cs::R1CSError>>| match v { Ok(Ok(())) => 0, Ok(Err(e)) => err_code(e), Err(_) => 99 };
+        let lazy_codes = [code_of(&run_batch_mode(1)), code_of(&run_batch_mode(2))];
         let vcode = match &verdict {
             Ok(Ok(())) => 0,
             Ok(Err(e)) => err_code(e),
@@ -175,6 +188,7 @@ pub fn gen_and_run<G: AffineRepr>(curve: &str, ci: u64, modulus: &str, seed: u64
         let mut brng = CountingRng { inner: ChaChaRng::seed_from_u64(bseed), bytes: 0 };
         let alphas: Vec<F<G>> = (0..usable.len()).map(|_| F::<G>::rand(&mut brng)).collect();
         let _ = writeln!(obs, "{} 15 {}", id, vcode);
+        let _ = writeln!(obs, "{} 23 {} {}", id, lazy_codes[0], lazy_codes[1]);
         let _ = writeln!(obs, "{} 22 {} {}", id, if consumed.get() == u64::MAX { -1i64 } else { consumed.get() as i64 }, brng.bytes);
         let _ = writeln!(obs, "{} 20 {}", id, singles.iter().map(|x| x.to_string()).collect::<Vec<_>>().join(" "));
         let _ = writeln!(obs, "{} 21 {}", id, usable.len());
